@@ -251,6 +251,22 @@ def analyse(facts, tier):
         raise build.AnalysisBroken('C13.R4: sample type enumeration not found')
     # cvt local per sample-type arm
     n_arms = 0
+    # the format fields by shape: an expression "is the sample type / the container size" when it is the member of the public
+    # OPNMIDI_AudioFormat struct or a local initialised from it (no dependence on the names of the locals)
+    fmt_locals = {}
+    for b, j, st in ssa.cfg.stmts():
+        if st['s'].get('k') == 'DeclStmt':
+            for v in st['s']['decls']:
+                i_ = strip(v.get('init')) if v.get('init') is not None else None
+                while i_ is not None and (i_.get('k') or '').endswith('CastExpr'):
+                    i_ = strip(i_.get('e'))
+                if i_ is not None and i_.get('k') == 'MemberExpr' and 'AudioFormat' in i_.get('n', ''):
+                    fmt_locals[v['id']] = short(i_['n'])
+    def fmt_field(name):
+        return lambda y: (y.get('k') == 'MemberExpr' and 'AudioFormat' in y.get('n', '') and short(y['n']) == name) or \
+                         (y.get('k') == 'DeclRefExpr' and fmt_locals.get(y.get('id')) == name)
+    def ref_named(nm):      # shadows the name-based helper inside this rule
+        return fmt_field({'sampleType': 'type', 'containerSize': 'containerSize'}[nm])
     for b, j, st in ssa.cfg.stmts():
         for x in calls_in(st['s']):
             if not callee_name(x).startswith('CopySamples'):
